@@ -34,7 +34,24 @@ def _range(lo, hi):
 ANY = z3.AllChar(z3.ReSort(z3.StringSort()))
 
 
-def translate(pattern: str):
+_ALPHABET = None
+
+
+def translate(pattern: str, alphabet=None):
+    """alphabet: a finite list of characters; with it \\d \\w \\s and negations take Python's own Unicode meaning, decided per character by
+    the re engine, and the universe of negated classes and '.' is the alphabet."""
+    global _ALPHABET, ANY
+    saved = (_ALPHABET, ANY)
+    _ALPHABET = alphabet
+    if alphabet is not None:
+        ANY = _union([_char(ord(c)) for c in alphabet])
+    try:
+        return _translate(pattern)
+    finally:
+        _ALPHABET, ANY = saved
+
+
+def _translate(pattern: str):
     tree = sre_parse.parse(pattern)
     items = list(tree)
     # strip anchors at the ends
@@ -68,7 +85,36 @@ def _seq(items):
     return r
 
 
+_CAT_RE = {}
+
+
+def _category_has(cat, c):
+    import re as _re
+    probes = {sre_constants.CATEGORY_DIGIT: r'\d', sre_constants.CATEGORY_NOT_DIGIT: r'\D', sre_constants.CATEGORY_WORD: r'\w',
+              sre_constants.CATEGORY_NOT_WORD: r'\W', sre_constants.CATEGORY_SPACE: r'\s', sre_constants.CATEGORY_NOT_SPACE: r'\S'}
+    if cat not in probes:
+        raise Unsupported(f'category {cat}')
+    if cat not in _CAT_RE:
+        _CAT_RE[cat] = _re.compile(probes[cat])
+    return _CAT_RE[cat].fullmatch(c) is not None
+
+
 def _category(cat):
+    if _ALPHABET is not None:
+        import re as _re
+        probes = {sre_constants.CATEGORY_DIGIT: r'\d', sre_constants.CATEGORY_NOT_DIGIT: r'\D', sre_constants.CATEGORY_WORD: r'\w',
+                  sre_constants.CATEGORY_NOT_WORD: r'\W', sre_constants.CATEGORY_SPACE: r'\s', sre_constants.CATEGORY_NOT_SPACE: r'\S'}
+        if cat not in probes:
+            raise Unsupported(f'category {cat}')
+        rx = _re.compile(probes[cat])
+        chars = [c for c in _ALPHABET if rx.fullmatch(c)]
+        if not chars:
+            return z3.Empty(z3.ReSort(z3.StringSort()))
+        return _union([_char(ord(c)) for c in chars])
+    return _category_ascii(cat)
+
+
+def _category_ascii(cat):
     """ASCII reading of \\d \\w \\s (exact on ASCII strings only: callers restrict the alphabet)."""
     digit = _range(48, 57)
     word = _union([digit, _range(65, 90), _range(97, 122), _char(95)])
@@ -96,6 +142,26 @@ def _node(op, av):
         return z3.Intersect(ANY, z3.Complement(_char(av)))
     if op is sre_constants.ANY:
         return z3.Intersect(ANY, z3.Complement(_char(10)))
+    if op is sre_constants.IN and _ALPHABET is not None:
+        # over a finite alphabet a class is the set of alphabet characters it contains (keeps huge Unicode classes small)
+        neg = any(iop is sre_constants.NEGATE for iop, _ in av)
+        chars = []
+        for c in _ALPHABET:
+            o, hit = ord(c), False
+            for iop, iav in av:
+                if iop is sre_constants.LITERAL:
+                    hit = hit or iav == o
+                elif iop is sre_constants.RANGE:
+                    hit = hit or iav[0] <= o <= iav[1]
+                elif iop is sre_constants.CATEGORY:
+                    hit = hit or _category_has(iav, c)
+                elif iop is not sre_constants.NEGATE:
+                    raise Unsupported(f'class item {iop}')
+            if hit != neg:
+                chars.append(c)
+        if not chars:
+            return z3.Empty(z3.ReSort(z3.StringSort()))
+        return _union([_char(ord(c)) for c in chars])
     if op is sre_constants.IN:
         neg = False
         parts = []
@@ -112,6 +178,8 @@ def _node(op, av):
                 raise Unsupported(f'class item {iop}')
         u = _union(parts) if parts else z3.Empty(z3.ReSort(z3.StringSort()))
         return z3.Intersect(ANY, z3.Complement(u)) if neg else u
+    if op is sre_constants.CATEGORY:
+        return _category(av)
     if op is sre_constants.BRANCH:
         return _union([_seq(list(b)) for b in av[1]])
     if op is sre_constants.SUBPATTERN:
